@@ -1,15 +1,41 @@
-//! One module per property. `dispatch!` maps a property id to its `Property` impl.
+//! One module per property; `dispatch` maps a property id to its `Property` impl.
+//! Modules are gated by the cargo feature of the kit they use (default: all kits).
+
+use crate::core::{self, Options, Property};
+use std::path::Path;
+
+#[cfg(feature = "kit-fs")]
+pub mod c07;
+#[cfg(feature = "kit-fs")]
 pub mod c10;
 
-#[macro_export]
-macro_rules! dispatch {
-    ($id:expr, $f:ident, $($arg:expr),*) => {
-        match $id {
-            "C10" => $crate::core::$f::<$crate::props::c10::C10>($($arg),*),
-            other => {
-                eprintln!("harness error: no check registered for property {other}");
-                2
-            }
+pub enum Action<'a> {
+    Check(&'a Options),
+    Replay(&'a Path),
+    Selfcheck(u64, u64),
+    Survey(u64, u64),
+    Record(&'a Path, &'a Path),
+}
+
+fn act<P: Property>(a: &Action) -> i32 {
+    match a {
+        Action::Check(o) => core::check::<P>(o),
+        Action::Replay(p) => core::replay::<P>(p),
+        Action::Selfcheck(seed, n) => core::selfcheck::<P>(*seed, *n),
+        Action::Survey(seed, n) => core::survey::<P>(*seed, *n),
+        Action::Record(a, b) => core::record::<P>(a, b),
+    }
+}
+
+pub fn dispatch(id: &str, a: &Action) -> i32 {
+    match id {
+        #[cfg(feature = "kit-fs")]
+        "C07" => act::<c07::C07>(a),
+        #[cfg(feature = "kit-fs")]
+        "C10" => act::<c10::C10>(a),
+        other => {
+            eprintln!("harness error: no check registered for property {other} in this build");
+            2
         }
-    };
+    }
 }
